@@ -63,10 +63,58 @@ def local_names(fn):
             out.append(name)
     return out
 
+def _to_format(node):
+    """f-string -> '...'.format(...) (constant format specs only), or None"""
+    fmt, args = '', []
+    for v in node.values:
+        if isinstance(v, ast.Constant):
+            fmt += str(v.value).replace('{', '{{').replace('}', '}}')
+        else:
+            spec = ''
+            if v.format_spec is not None:
+                if not all(isinstance(x, ast.Constant) for x in v.format_spec.values):
+                    return None
+                spec = ':' + ''.join(str(x.value) for x in v.format_spec.values)
+            conv = {-1: '', 115: '!s', 114: '!r', 97: '!a'}.get(v.conversion)
+            if conv is None:
+                return None
+            fmt += '{' + conv + spec + '}'
+            args.append(v.value)
+    return ast.Call(func=ast.Attribute(value=ast.Constant(value=fmt), attr='format', ctx=ast.Load()), args=args, keywords=[])
+
+def _to_fstring(node):
+    """'...{}...{:spec}'.format(a, b) with automatic numbering and positional arguments only -> f-string, or None"""
+    import string
+    if not (isinstance(node, ast.Call) and isinstance(node.func, ast.Attribute) and node.func.attr == 'format' and isinstance(node.func.value, ast.Constant)
+            and isinstance(node.func.value.value, str) and not node.keywords and not any(isinstance(a, ast.Starred) for a in node.args)):
+        return None
+    values, k = [], 0
+    try:
+        for lit, field, spec, conv in string.Formatter().parse(node.func.value.value):
+            if lit:
+                values.append(ast.Constant(value=lit))
+            if field is None:
+                continue
+            if field != '' or k >= len(node.args) or (spec and ('{' in spec)):
+                return None
+            fs = ast.JoinedStr(values=[ast.Constant(value=spec)]) if spec else None
+            values.append(ast.FormattedValue(value=node.args[k], conversion={None: -1, 's': 115, 'r': 114, 'a': 97}[conv], format_spec=fs))
+            k += 1
+    except (ValueError, KeyError):
+        return None
+    if k != len(node.args):
+        return None
+    return ast.JoinedStr(values=values)
+
 def shapes(fn):
-    """the comparison, branch-test and mask / shift expressions of a function, as text"""
+    """the comparison, branch-test, mask / shift and string-formatting expressions of a function, as text"""
     out = set()
     for n in ast.walk(fn):
+        if isinstance(n, ast.JoinedStr) or _to_fstring(n) is not None:
+            try:
+                out.add(ast.unparse(n))
+            except Exception:
+                pass
         if isinstance(n, ast.Compare):
             out.add(ast.unparse(n))
         elif isinstance(n, (ast.If, ast.While, ast.IfExp)):
@@ -105,6 +153,28 @@ class _Restore(ast.NodeTransformer):
             if alt is not None and ast.unparse(alt) in self.known:
                 self.count += 1
                 return ast.copy_location(alt, node)
+        return node
+    def visit_JoinedStr(self, node):
+        self.generic_visit(node)
+        try:
+            if ast.unparse(node) not in self.known:
+                alt = _to_format(node)
+                if alt is not None and ast.unparse(alt) in self.known:
+                    self.count += 1
+                    return ast.copy_location(alt, node)
+        except Exception:
+            pass
+        return node
+    def visit_Call(self, node):
+        self.generic_visit(node)
+        alt = _to_fstring(node)
+        if alt is not None:
+            try:
+                if ast.unparse(node) not in self.known and ast.unparse(alt) in self.known:
+                    self.count += 1
+                    return ast.copy_location(alt, node)
+            except Exception:
+                pass
         return node
     def visit_If(self, node):
         self.generic_visit(node)
